@@ -48,8 +48,7 @@ func (n *SpacelessNode) Render(w io.Writer, ctx *RenderContext) error {
 	// Apply spaceless filter to the rendered content
 	result, err := ctx.ApplyFilter("spaceless", buf.String())
 	if err != nil {
-		// Fall back to original content on filter error
-		_, err = w.Write(buf.Bytes())
+		// A failing filter is a failing render, like everywhere else
 		return err
 	}
 
